@@ -1,6 +1,6 @@
 """CrossHair contracts: integer / string misuse guards of the REAL classes raise ValueError (never return)."""
 import sys
-sys.path.insert(0, '/repo/src')
+sys.path.insert(0, __import__('os').environ.get('VERIF_REPO_SRC', '/repo/src'))
 from numdifftools.finite_difference import LogRule  # noqa: E402
 from numdifftools.limits import Residue, CStepGenerator  # noqa: E402
 
